@@ -106,7 +106,10 @@ Proof. intros E. now rewrite run_app, E. Qed.
 (* a user-level statement leaves the version table alone *)
 Lemma exec_stmt_user_snd {A} (rd : A -> value) d s d' :
   is_vstmt s = false -> exec_stmt rd d s = Some d' -> snd d' = snd d.
-Proof. unfold exec_stmt. intros ->. destruct (exec_u rd (fst d) s); intros E; inversion E; auto. Qed.
+Proof.
+  unfold exec_stmt. intros ->. destruct (is_frame s). { intros E; inversion E; auto. }
+  destruct (exec_u rd (fst d) s); intros E; inversion E; auto.
+Qed.
 Lemma compile_op_user {A} (f g : value -> A) (e : text -> A) o : forallb (fun s => negb (is_vstmt s)) (compile_op f g e o) = true.
 Proof.
   destruct o; simpl; auto.
@@ -209,6 +212,50 @@ Proof.
   apply IH. { intros v Hv. apply H. simpl. apply in_or_app; auto. } { intros w Hw. apply HT. simpl. apply in_or_app; auto. }
 Qed.
 
+(* ---- BEGIN / COMMIT: no effect on the contents; on a well-framed script they never fail *)
+Definition nof {A} (s:stmt A) : bool := negb (is_frame s).
+Lemma exec_run_filter {A} (rd : A -> value) l : forall d, exec_run rd d l = exec_run rd d (filter nof l).
+Proof.
+  induction l as [|s l IH]; intros d; simpl; auto. unfold nof at 1.
+  destruct (is_frame s) eqn:F; simpl.
+  - unfold exec_stmt. rewrite F. apply IH.
+  - destruct (exec_stmt rd d s); auto.
+Qed.
+Lemma filter_nof_id {A} (l : list (stmt A)) : forallb nof l = true -> filter nof l = l.
+Proof. induction l as [|s l IH]; simpl; auto. intros H. apply andb_true_iff in H as [H1 H2]. rewrite H1, IH; auto. Qed.
+Lemma framed_app {A} (a b : list (stmt A)) : forall o,
+  framed o (a ++ b) = match framed o a with Some o1 => framed o1 b | None => None end.
+Proof. induction a as [|s a IH]; intros o; simpl; auto. destruct s; auto; destruct o; auto. Qed.
+Lemma framed_nof {A} (l : list (stmt A)) : forallb nof l = true -> forall o, framed o l = Some o.
+Proof.
+  induction l as [|s l IH]; simpl; auto. intros H o. apply andb_true_iff in H as [H1 H2].
+  destruct s; try discriminate; auto.
+Qed.
+Definition is_open (st:ostate) : bool := match o_snap st with Some _ => true | None => false end.
+Lemma exec_tx_run {A} (rd : A -> value) l : forall st o', framed (is_open st) l = Some o' ->
+  exec_run rd (o_cur st) l = (o_cur (fst (exec_tx rd st l)), snd (exec_tx rd st l)).
+Proof.
+  induction l as [|s l IH]; intros st o' F; [reflexivity|].
+  destruct s; cbn [exec_tx exec_run framed] in *;
+    try (destruct (exec_stmt rd (o_cur st) _) as [d'|] eqn:E; [apply (IH (mkO d' (o_snap st)) o'); exact F | reflexivity]).
+  - (* BEGIN *) unfold is_open in F. destruct (o_snap st); [discriminate|].
+    change (exec_stmt rd (o_cur st) SBegin) with (Some (o_cur st)). apply (IH (mkO (o_cur st) (Some (o_cur st))) o'). exact F.
+  - (* COMMIT *) unfold is_open in F. destruct (o_snap st); [|discriminate].
+    change (exec_stmt rd (o_cur st) SCommit) with (Some (o_cur st)). apply (IH (mkO (o_cur st) None) o'). exact F.
+Qed.
+Lemma compile_op_nof {A} (f g : value -> A) (e : text -> A) o : forallb nof (compile_op f g e o) = true.
+Proof.
+  destruct o; simpl; auto.
+  - induction rows; simpl; auto.
+  - destruct r; reflexivity.
+Qed.
+Lemma body_nof {A} (f g : value -> A) (e : text -> A) b : forallb nof (flat_map (compile_op f g e) b) = true.
+Proof. induction b as [|o b IH]; simpl; auto. rewrite forallb_app, compile_op_nof, IH. reflexivity. Qed.
+Lemma bk_nof {A} l : forallb (@nof A) (map vstmt_sql l) = true.
+Proof. induction l as [|s l IH]; simpl; auto. rewrite IH. destruct s; reflexivity. Qed.
+Lemma frame_excl c : frame_step c = true -> frame_outer c = false.
+Proof. unfold frame_step, frame_outer. destruct (tddl_eff c), (g_tpm c); simpl; congruence. Qed.
+
 (* ---- version-table bookkeeping *)
 Lemma countN_notin r l : ~ In r l -> countN r l = 0%nat.
 Proof.
@@ -248,6 +295,10 @@ Section Lit.
   Variable lit : value -> text.
   Variable parse_lit : text -> value.
   Variable untext : text -> text.
+  Variable c : cfg.
+
+  Lemma step_commit_cur st : o_cur (step_commit c st) = o_cur st.
+  Proof. unfold step_commit. destruct (commit_per_step c); reflexivity. Qed.
 
   Lemma hm_apply_NoDup h s h' : NoDup h -> hm_apply h s = Some h' -> NoDup h'.
   Proof.
@@ -370,8 +421,8 @@ Section Lit.
     NoDup h -> off_pre doff h -> fst (o_cur st) = fst doff -> snd (o_cur st) = Some h ->
     mid_nonempty h steps = true -> lits_ok (steps_values steps) (steps_texts steps) ->
     match off_steps lit untext h steps with
-    | None => snd (on_steps lit parse_lit untext st h steps) = false
-    | Some (s, hf) => sim_run steps doff hf (exec_run parse_lit doff s) (on_steps lit parse_lit untext st h steps)
+    | None => snd (on_steps lit parse_lit untext c st h steps) = false
+    | Some (s, hf) => sim_run steps doff hf (exec_run parse_lit doff s) (on_steps lit parse_lit untext c st h steps)
     end.
   Proof.
     induction steps as [|stp r IH]; intros h doff st ND P F S M L.
@@ -408,18 +459,18 @@ Section Lit.
     - (* last step *)
       simpl. unfold sim_run.
       rewrite (run_app_ok _ _ _ _ _ Hpre), (run_app_ok _ _ _ _ _ Hb), (run_app_ok _ _ _ _ _ B3). simpl.
-      rewrite B2. simpl. repeat split; auto; discriminate.
+      rewrite !step_commit_cur, B2. simpl. repeat split; auto; discriminate.
     - destruct (mid_step _ _ _ _ _ M Ehm) as [Hne M'].
       assert (Pn : off_pre (fst (o_cur st1), Some h') h') by (left; split; auto).
-      specialize (IH h' (fst (o_cur st1), Some h') (commit st2) N' Pn).
-      assert (F2 : fst (o_cur (commit st2)) = fst (fst (o_cur st1), Some h')) by (simpl; rewrite B2; reflexivity).
-      assert (S2 : snd (o_cur (commit st2)) = Some h') by (simpl; rewrite B2; reflexivity).
+      specialize (IH h' (fst (o_cur st1), Some h') (step_commit c st2) N' Pn).
+      assert (F2 : fst (o_cur (step_commit c st2)) = fst (fst (o_cur st1), Some h')) by (rewrite step_commit_cur, B2; reflexivity).
+      assert (S2 : snd (o_cur (step_commit c st2)) = Some h') by (rewrite step_commit_cur, B2; reflexivity).
       specialize (IH F2 S2 M' Lr).
       destruct (off_steps lit untext h' (stp2 :: r2)) as [[s hf]|]; auto.
       unfold sim_run in *.
       rewrite (run_app_ok _ _ _ _ _ Hpre), (run_app_ok _ _ _ _ _ Hb), (run_app_ok _ _ _ _ _ B3).
       destruct (exec_run parse_lit (fst (o_cur st1), Some h') s) as [p ok].
-      destruct (on_steps lit parse_lit untext (commit st2) h' (stp2 :: r2)) as [[stf hf2] okf].
+      destruct (on_steps lit parse_lit untext c (step_commit c st2) h' (stp2 :: r2)) as [[stf hf2] okf].
       destruct IH as [I1 [I2 I3]]. split; [exact I1|]. split; [|exact I3].
       intros Hok. destruct (I2 Hok) as [J1 [J2 [J3 J4]]]. repeat split; auto.
   Qed.
@@ -443,10 +494,10 @@ Section Lit.
   (* the whole command: script generation, replay, online run *)
   Lemma whole_sim d start steps : class_hyps d start steps ->
     match off_steps lit untext start steps with
-    | None => snd (run_online_tx lit parse_lit untext d steps) = false
+    | None => snd (run_online_tx lit parse_lit untext c d steps) = false
     | Some (s, hf) =>
         let '(p, ok1) := exec_run parse_lit d (s ++ script_tail hf) in
-        let '(st, _, ok2) := run_online_tx lit parse_lit untext d steps in
+        let '(st, _, ok2) := run_online_tx lit parse_lit untext c d steps in
         ok1 = ok2 /\ (ok1 = true -> observable p = observable (o_cur st)) /\ (ok1 = false -> p = o_cur st)
     end.
   Proof.
@@ -461,7 +512,7 @@ Section Lit.
     destruct (off_steps lit untext start (stp :: r)) as [[s hf]|]; auto.
     unfold sim_run in SS. unfold sqlstmt in *. rewrite (run_app parse_lit s (script_tail hf) d).
     destruct (exec_run parse_lit d s) as [p ok].
-    destruct (on_steps lit parse_lit untext (mkO (fst d, Some start) None) start (stp :: r)) as [[st h2] ok2].
+    destruct (on_steps lit parse_lit untext c (mkO (fst d, Some start) None) start (stp :: r)) as [[st h2] ok2].
     destruct SS as [-> [I2 I3]]. destruct ok2.
     - destruct (I2 eq_refl) as [F [-> [S2 S1]]].
       destruct hf as [|x hf]; simpl.
@@ -472,49 +523,117 @@ Section Lit.
     - repeat split; auto; discriminate.
   Qed.
 
+  (* ---- the framed script: the same statements as the core script plus well-nested BEGIN / COMMIT *)
+  Lemma chunk_framed (fs fo : bool) (X s : list sqlstmt) : (fs = true -> fo = false) -> forallb nof X = true ->
+    framed fo s = Some fo ->
+    framed fo (fr_begin fs ++ X ++ fr_commit fs ++ s) = Some fo /\
+    filter nof (fr_begin fs ++ X ++ fr_commit fs ++ s) = X ++ filter nof s.
+  Proof.
+    intros EX HX HS. unfold fr_begin, fr_commit, sqlstmt in *. split.
+    - destruct fs.
+      + rewrite (EX eq_refl) in *. cbn [app framed].
+        rewrite (framed_app X (SCommit :: s) true), (framed_nof X HX). cbn [framed]. exact HS.
+      + cbn [app]. rewrite (framed_app X s fo), (framed_nof X HX). exact HS.
+    - destruct fs; cbn [app filter nof is_frame negb]; rewrite filter_app, (filter_nof_id X HX); reflexivity.
+  Qed.
+  Lemma body_off_nof b : forallb nof (body_off lit untext b) = true.
+  Proof.
+    unfold body_off. induction b as [|o b IH]; cbn [flat_map]; auto.
+    rewrite forallb_app. apply andb_true_iff. split; [unfold compile_off; apply compile_op_nof | exact IH].
+  Qed.
+  Lemma off_steps_f_core steps : forall h,
+    match off_steps_f lit untext c h steps, off_steps lit untext h steps with
+    | Some (sf, hf), Some (s, hf') => hf = hf' /\ filter nof sf = s /\ framed (frame_outer c) sf = Some (frame_outer c)
+    | None, None => True
+    | _, _ => False
+    end.
+  Proof.
+    induction steps as [|st r IH]; intros h; simpl. { auto. }
+    destruct (hm_list h (s_bk st)) as [h'|]; auto. specialize (IH h').
+    destruct (off_steps_f lit untext c h' r) as [[sf hf]|], (off_steps lit untext h' r) as [[s hf']|]; auto.
+    destruct IH as [-> [IF IW]].
+    set (X := match h with [] => [SVCreate] | _ :: _ => [] end ++ body_off lit untext (s_body st) ++ map vstmt_sql (s_bk st)).
+    assert (HX : forallb nof X = true).
+    { unfold X. rewrite forallb_app. apply andb_true_iff. split; [destruct h; reflexivity|].
+      rewrite forallb_app. apply andb_true_iff. split; [apply body_off_nof | apply bk_nof]. }
+    destruct (chunk_framed (frame_step c) (frame_outer c) X sf (frame_excl c) HX IW) as [C1 C2].
+    unfold X in C1, C2. rewrite <- !app_assoc in C1, C2. unfold sqlstmt in *. split; auto. split; auto.
+    rewrite C2, IF. now rewrite <- !app_assoc.
+  Qed.
+  Lemma run_offline_f_core start steps :
+    match run_offline_f lit untext c start steps, run_offline lit untext start steps with
+    | Some sf, Some s => filter nof sf = s /\ framed false sf = Some false
+    | None, None => True
+    | _, _ => False
+    end.
+  Proof.
+    unfold run_offline_f, run_offline. pose proof (off_steps_f_core steps start) as H.
+    destruct (off_steps_f lit untext c start steps) as [[sf hf]|], (off_steps lit untext start steps) as [[s hf']|]; auto.
+    destruct H as [-> [HF HW]].
+    unfold fr_begin, fr_commit, sqlstmt in *.
+    split.
+    - rewrite !filter_app, HF.
+      destruct (frame_outer c), (frame_step c), hf'; cbn [filter nof is_frame negb app]; rewrite ?app_nil_r; reflexivity.
+    - destruct (frame_outer c) eqn:FO, (frame_step c) eqn:FS.
+      + rewrite (frame_excl c FS) in FO. discriminate.
+      + cbn [app framed]. rewrite framed_app, HW. destruct hf'; reflexivity.
+      + cbn [app framed]. rewrite framed_app, HW. destruct hf'; reflexivity.
+      + cbn [app framed]. rewrite framed_app, HW. destruct hf'; reflexivity.
+  Qed.
+  (* replaying the framed script on an autocommit connection reaches the contents, and stops where, the plain run of the
+     core script does *)
+  Lemma replay_tx_core d start steps sf s :
+    run_offline_f lit untext c start steps = Some sf -> run_offline lit untext start steps = Some s ->
+    exec_run parse_lit d s = (o_cur (fst (replay_tx parse_lit d sf)), snd (replay_tx parse_lit d sf)).
+  Proof.
+    intros E1 E2. pose proof (run_offline_f_core start steps) as H. rewrite E1, E2 in H. destruct H as [HF HW].
+    rewrite <- HF, <- exec_run_filter. unfold replay_tx. apply (exec_tx_run parse_lit sf (mkO d None) false). exact HW.
+  Qed.
+
   (* both runs complete with the same observable, or both are stopped by an error *)
   Theorem outcome_sim d start steps : class_hyps d start steps ->
-    match offline_outcome lit parse_lit untext d start steps, online_outcome lit parse_lit untext d steps with
+    match offline_outcome lit parse_lit untext c d start steps, online_outcome lit parse_lit untext c d steps with
     | Done a, Done b => observable a = observable b
     | Aborted _, Aborted _ => True
     | _, _ => False
     end.
   Proof.
     intros H. pose proof (whole_sim d start steps H) as W.
-    unfold offline_outcome, online_outcome, run_offline, replay_run.
-    destruct (off_steps lit untext start steps) as [[s hf]|].
-    - fold (script_tail hf).
-      destruct (exec_run parse_lit d (s ++ script_tail hf)) as [p ok].
-      destruct (run_online_tx lit parse_lit untext d steps) as [[st h2] ok2].
+    pose proof (run_offline_f_core start steps) as FC.
+    unfold offline_outcome, online_outcome.
+    destruct (run_offline_f lit untext c start steps) as [sf|] eqn:E1, (run_offline lit untext start steps) as [s|] eqn:E2;
+      try contradiction.
+    - pose proof (replay_tx_core d start steps sf s E1 E2) as R.
+      unfold run_offline in E2. destruct (off_steps lit untext start steps) as [[s0 hf]|]; try discriminate.
+      inversion E2; subst s; clear E2. fold (script_tail hf) in R. rewrite R in W.
+      destruct (replay_tx parse_lit d sf) as [stf okf]. simpl in W.
+      destruct (run_online_tx lit parse_lit untext c d steps) as [[st h2] ok2].
       destruct W as [-> [W1 W2]]. destruct ok2; auto.
-    - destruct (run_online_tx lit parse_lit untext d steps) as [[st h2] ok2]. simpl in W. subst ok2. exact I.
+    - unfold run_offline in E2. destruct (off_steps lit untext start steps) as [[s0 hf]|]; try discriminate.
+      destruct (run_online_tx lit parse_lit untext c d steps) as [[st h2] ok2]. simpl in W. subst ok2. exact I.
   Qed.
 
   (* when the replay of the generated script is stopped by a failing statement, the online run is stopped too, having
-     executed exactly the same statements: its database before the rollback IS the database the replay leaves behind;
-     what the online run leaves behind is rolled_back of that state *)
+     executed exactly the same statements: its contents before the rollback ARE the contents the replay had reached;
+     what each side leaves behind is rolled_back of its own transaction state *)
   Theorem abort_same_statement d start steps script : class_hyps d start steps ->
-    run_offline lit untext start steps = Some script ->
-    let '(p, ok1) := replay_run parse_lit d script in
-    let '(st, _, ok2) := run_online_tx lit parse_lit untext d steps in
-    ok1 = ok2 /\ (ok1 = false -> p = o_cur st /\ online_outcome lit parse_lit untext d steps = Aborted (rolled_back st)).
+    run_offline_f lit untext c start steps = Some script ->
+    let '(sto, ok1) := replay_tx parse_lit d script in
+    let '(st, _, ok2) := run_online_tx lit parse_lit untext c d steps in
+    ok1 = ok2 /\ (ok1 = false -> o_cur sto = o_cur st /\
+                               offline_outcome lit parse_lit untext c d start steps = Aborted (rolled_back sto) /\
+                               online_outcome lit parse_lit untext c d steps = Aborted (rolled_back st)).
   Proof.
-    intros H. pose proof (whole_sim d start steps H) as W.
-    unfold run_offline, replay_run, online_outcome.
-    destruct (off_steps lit untext start steps) as [[s hf]|]; try discriminate.
-    intros E; inversion E; subst script; clear E. fold (script_tail hf).
-    destruct (exec_run parse_lit d (s ++ script_tail hf)) as [p ok].
-    destruct (run_online_tx lit parse_lit untext d steps) as [[st h2] ok2].
-    destruct W as [-> [W1 W2]]. split; auto. intros ->. split; auto.
-  Qed.
-
-  Lemma offline_effect_outcome d start steps :
-    offline_effect lit parse_lit untext d start steps =
-    match offline_outcome lit parse_lit untext d start steps with Done a => Some a | Aborted _ => None end.
-  Proof.
-    unfold offline_effect, offline_outcome, replay, replay_run, exec_list.
-    destruct (run_offline lit untext start steps); auto.
-    destruct (exec_run parse_lit d l) as [p [|]]; auto.
+    intros H E1. pose proof (whole_sim d start steps H) as W.
+    pose proof (run_offline_f_core start steps) as FC. rewrite E1 in FC.
+    destruct (run_offline lit untext start steps) as [s|] eqn:E2; try contradiction.
+    pose proof (replay_tx_core d start steps script s E1 E2) as R.
+    unfold offline_outcome, online_outcome. rewrite E1.
+    unfold run_offline in E2. destruct (off_steps lit untext start steps) as [[s0 hf]|]; try discriminate.
+    inversion E2; subst s; clear E2. fold (script_tail hf) in R. rewrite R in W.
+    destruct (replay_tx parse_lit d script) as [sto okf]. simpl in W.
+    destruct (run_online_tx lit parse_lit untext c d steps) as [[st h2] ok2].
+    destruct W as [-> [W1 W2]]. split; auto. intros ->. repeat split; auto.
   Qed.
 
   Theorem same_effect d start steps :
@@ -522,21 +641,34 @@ Section Lit.
     (forall v, In v (steps_values steps) -> parse_lit (lit v) = v) ->
     (forall v, In v (steps_values steps) -> no_tab (lit v) = true) ->
     (forall w, In w (steps_texts steps) -> no_tab (untext w) = true) ->
-    option_map observable (offline_effect lit parse_lit untext d start steps) = option_map observable (run_online lit parse_lit untext d steps).
+    option_map observable (offline_effect_f lit parse_lit untext c d start steps) = option_map observable (run_online lit parse_lit untext c d steps).
   Proof.
     intros DA M NE R T TT.
     assert (H : class_hyps d start steps).
     { split; [exact DA|]. split; [exact M|]. split; [exact NE|]. split; [intros v Hv; split; auto|auto]. }
     pose proof (outcome_sim d start steps H) as O.
-    rewrite offline_effect_outcome. unfold run_online.
-    destruct (offline_outcome lit parse_lit untext d start steps), (online_outcome lit parse_lit untext d steps);
+    unfold offline_effect_f, run_online.
+    destruct (offline_outcome lit parse_lit untext c d start steps), (online_outcome lit parse_lit untext c d steps);
       simpl; try contradiction; auto. now rewrite O.
+  Qed.
+  (* the same for the core script without framing (the statement stream the text-level theorem is about) *)
+  Lemma same_effect_core d start steps : class_hyps d start steps ->
+    option_map observable (offline_effect lit parse_lit untext d start steps) = option_map observable (run_online lit parse_lit untext c d steps).
+  Proof.
+    intros H. pose proof (whole_sim d start steps H) as W.
+    unfold offline_effect, replay, exec_list, run_online, online_outcome, run_offline.
+    destruct (off_steps lit untext start steps) as [[s hf]|].
+    - fold (script_tail hf).
+      destruct (exec_run parse_lit d (s ++ script_tail hf)) as [p ok].
+      destruct (run_online_tx lit parse_lit untext c d steps) as [[st h2] ok2].
+      destruct W as [-> [W1 W2]]. destruct ok2; simpl; auto. now rewrite W1.
+    - destruct (run_online_tx lit parse_lit untext c d steps) as [[st h2] ok2]. simpl in W. subst ok2. reflexivity.
   Qed.
 
   (* ---- offline heads = online rows, for every plan and independent of the literals *)
   Theorem heads_invariant steps : forall st h s hf st2 h2,
     snd (o_cur st) = Some h -> NoDup h ->
-    off_steps lit untext h steps = Some (s, hf) -> on_steps lit parse_lit untext st h steps = (st2, h2, true) ->
+    off_steps lit untext h steps = Some (s, hf) -> on_steps lit parse_lit untext c st h steps = (st2, h2, true) ->
     h2 = hf /\ snd (o_cur st2) = Some hf /\ NoDup hf.
   Proof.
     induction steps as [|stp r IH]; intros st h s hf st2 h2 S ND Eoff Eon.
@@ -549,8 +681,8 @@ Section Lit.
     pose proof (body_on_snd _ _ _ _ Hb) as S1. rewrite S in S1.
     pose proof (bk_sim (s_bk stp) st1 h ND S1) as B. rewrite Ehm in B. destruct B as [st2' [B1 [B2 _]]].
     rewrite B1 in Eon.
-    apply (IH (commit st2') h' s' hf st2 h2); auto.
-    - simpl. rewrite B2. reflexivity.
+    apply (IH (step_commit c st2') h' s' hf st2 h2); auto.
+    - rewrite step_commit_cur, B2. reflexivity.
     - eapply hm_list_NoDup; eauto.
   Qed.
 End Lit.
@@ -646,6 +778,7 @@ Section Text.
   Variable sqlite : text -> option sqlstmt.
   Variable term : text.
   Variable supported : sqlstmt -> bool.         (* the constructs the two hypotheses are assumed for *)
+  Variable cf : cfg.
   Hypothesis render_wf : forall s, supported s = true -> stext_wf (render s) = true.
   Hypothesis sqlite_reads : forall s g core', supported s = true ->
     Forall2 (tok_sim g) (st_core (render s)) core' -> sqlite (flat core' ++ term) = Some (map_stmt g s).
@@ -712,8 +845,11 @@ Section Text.
     (forall w, In w (steps_texts steps) -> no_tab (untext w) = true) ->
     (forall l, run_offline_plain lit untext start steps = Some l -> forallb supported l = true) ->
     option_map observable (offline_text_effect lit parse_lit untext render sqlite term d start steps)
-    = option_map observable (run_online lit parse_lit untext d steps).
-  Proof. intros. rewrite text_effect by auto. now apply same_effect. Qed.
+    = option_map observable (run_online lit parse_lit untext cf d steps).
+  Proof.
+    intros DA M NE R T TT HS. rewrite text_effect by auto. apply same_effect_core.
+    split; [exact DA|]. split; [exact M|]. split; [exact NE|]. split; [intros v Hv; split; auto|auto].
+  Qed.
 End Text.
 
 (* ================================================================ E. the concrete literal syntax *)
@@ -774,21 +910,21 @@ Proof.
 Qed.
 Theorem main_concrete i : inclass_C12 i = true -> C12_holds i (model_C12 i).
 Proof.
-  intros H. pose proof (outcome_sim lit_c parse_c untext_c _ _ _ (inclass_hyps i H)) as O.
+  intros H. pose proof (outcome_sim lit_c parse_c untext_c (i_cfg i) _ _ _ (inclass_hyps i H)) as O.
   unfold C12_holds, model_C12; cbn [o_on o_off].
-  destruct (offline_outcome lit_c parse_c untext_c (i_db i) (i_start i) (i_steps i)),
-           (online_outcome lit_c parse_c untext_c (i_db i) (i_steps i)); simpl; try contradiction; auto.
+  destruct (offline_outcome lit_c parse_c untext_c (i_cfg i) (i_db i) (i_start i) (i_steps i)),
+           (online_outcome lit_c parse_c untext_c (i_cfg i) (i_db i) (i_steps i)); simpl; try contradiction; auto.
 Qed.
 
 (* ================================================================ G. witnesses *)
 (* create_table + bulk_insert of 'tab<TAB>here' from base *)
 Definition wit_tab : c12_in :=
-  mkIn (mkU [] [], None) [] [mkStep [CreateTable 0 [mkCol 0 2 None false] []; BulkInsert 0 [[Some (VText [116; 97; 98; 9; 104; 101; 114; 101])]]] [VIns 0]] [].
+  mkIn (mkU [] [], None) [] [mkStep [CreateTable 0 [mkCol 0 2 None false] []; BulkInsert 0 [[Some (VText [116; 97; 98; 9; 104; 101; 114; 101])]]] [VIns 0]] [] (mkCfg None false).
 (* `upgrade base:base --sql`: nothing to do, yet the script drops the version table *)
-Definition wit_empty_plan : c12_in := mkIn (mkU [] [], None) [] [] [].
+Definition wit_empty_plan : c12_in := mkIn (mkU [] [], None) [] [] [] (mkCfg None false).
 (* a database at base whose (empty) version table is still there *)
 Definition wit_empty_vt : c12_in :=
-  mkIn (mkU [] [], Some []) [] [mkStep [CreateTable 0 [mkCol 0 0 None false] []; BulkInsert 0 [[Some (VInt 1)]]] [VIns 0]] [].
+  mkIn (mkU [] [], Some []) [] [mkStep [CreateTable 0 [mkCol 0 0 None false] []; BulkInsert 0 [[Some (VInt 1)]]] [VIns 0]] [] (mkCfg None false).
 (* a branched plan inside the class: r0 <- r1, r0 <- r2 applied from r0; defaults, NOT NULL, a primary key, a unique index,
    omitted / None cells, a backslash-colon escape *)
 Definition wit_ok : c12_in :=
@@ -797,12 +933,12 @@ Definition wit_ok : c12_in :=
                 BulkInsert 0 [[Some (VText [39; 39]); Some VNull; None]; [Some (VText [107]); None; Some (VNum [50; 46; 53])]]; CreateIndex 0 0 [2; 0] true] [VUpd 0 1];
         mkStep [CreateTable 1 [mkCol 3 2 (Some (VText [100])) false] [];
                 Execute (RInsert 1 [Some [39; 49; 50; 92; 58; 51; 48; 39]]); Execute (RInsert 1 [None]);
-                Execute (RUpdateAll 0 1 [55])] [VIns 2]] [32; 9; 120; 32].
+                Execute (RUpdateAll 0 1 [55])] [VIns 2]] [32; 9; 120; 32] (mkCfg (Some true) true).
 (* the same plan, but the second bulk row repeats the primary key of the first: both runs stop there *)
 Definition wit_abort : c12_in :=
   mkIn (mkU [mkTable 0 [mkCol 0 1 None true; mkCol 1 0 None false] [[0]] []] [], Some [0]) [0]
        [mkStep [CreateTable 1 [mkCol 2 0 None false] [];
-                BulkInsert 0 [[Some (VText [97]); Some (VInt 1)]; [Some (VText [98]); None]; [Some (VText [97]); Some (VInt 2)]]] [VUpd 0 1]] [].
+                BulkInsert 0 [[Some (VText [97]); Some (VInt 1)]; [Some (VText [98]); None]; [Some (VText [97]); Some (VInt 2)]]] [VUpd 0 1]] [] (mkCfg None false).
 
 Lemma refuted_tab : exists i, lits_roundtripb (i_steps i) = true /\ start_okb i = true /\ ~ C12_holds i (model_C12 i).
 Proof. exists wit_tab. split; [vm_compute; reflexivity|]. split; [vm_compute; reflexivity|]. vm_compute. discriminate. Qed.
@@ -898,7 +1034,7 @@ Lemma text_nonvacuous :
   (forall s, supported_c s = true -> stext_wf (render_c s) = true) /\
   (forall s g core', supported_c s = true -> Forall2 (tok_sim g) (st_core (render_c s)) core' ->
                      sqlite_c (flat core' ++ [59]) = Some (map_stmt g s)) /\
-  inclass_C12 (mkIn toy_db [] toy_steps []) = true /\
+  inclass_C12 (mkIn toy_db [] toy_steps [] (mkCfg None false)) = true /\
   (forall l, run_offline_plain lit_c untext_c [] toy_steps = Some l -> forallb supported_c l = true) /\
   exists d, offline_text_effect lit_c parse_c untext_c render_c sqlite_c [59] toy_db [] toy_steps = Some d /\
             ob_vers (observable d) = [5] /\ map (fun t => length (t_rows t)) (ob_tabs (observable d)) = [1%nat].
